@@ -80,6 +80,7 @@ type massiveScenario struct {
 	preexist []string // root names created in the target before the call
 	preKind  []string
 	verifyState string
+	manyRoots bool
 }
 
 func (s *massiveScenario) describe(c *Ctx) {
@@ -105,7 +106,7 @@ func (s *massiveScenario) classes() []string {
 	if s.sp.LeadBlank > 0 {
 		cl = append(cl, "leading-blank")
 	}
-	if len(s.sp.UnitPerRoot) > 0 || differingFirstIndents(s.parts) {
+	if len(s.sp.UnitPerRoot) > 0 || differingFirstIndents(s.doc) {
 		// the first indented line is not indented alike under every root: the unit the
 		// (shared) parser learns depends on which block it sees first
 		cl = append(cl, "mixed-units")
@@ -138,9 +139,40 @@ func genMassiveScenario(c *Ctx, arm string, nMalformMax int) *massiveScenario {
 		fo.maxRoots = 1
 		s.op.FromRoot = true
 	}
+	if !fromRoot && (arm == "stress" || c.Chance(1, 7)) {
+		// more root blocks than workers per stage (10): some worker handles several blocks
+		fo.maxRoots, fo.maxExtra = 26, 3
+		s.manyRoots = true
+	}
 	s.forest = genForest(c, fo)
+	if s.manyRoots && len(s.forest) < 11 {
+		for len(s.forest) < 11 {
+			n := genName(c, alpha)
+			if fo.distinctRoots {
+				n = fmt.Sprintf("%s%d", n, len(s.forest))
+			}
+			s.forest = append(s.forest, genTree(c, n, fo))
+		}
+	}
 	s.sp = genSpelling(c, arm == "extended")
 	s.doc, s.parts = spell(c, s.forest, s.sp)
+	if arm == "stress" {
+		// more blocks than workers, and level jumps (which simple mode accepts, dropping the
+		// lines) below the first indented line of late blocks: per-block state must not leak
+		// from one block to the next one a worker handles
+		for i := 0; i < 1+c.Draw(3); i++ {
+			pi := len(s.parts)/2 + c.Draw(len(s.parts)-len(s.parts)/2)
+			lines := strings.Split(strings.TrimRight(string(s.parts[pi]), "\n"), "\n")
+			if len(lines) < 3 {
+				lines = append(lines, s.sp.Unit+"- k1", s.sp.Unit+"- k2")
+			}
+			li := 2 + c.Draw(len(lines)-2)
+			lines[li] = s.sp.Unit + s.sp.Unit + lines[li]
+			s.parts[pi] = []byte(strings.Join(lines, "\n") + "\n")
+			s.malform = append(s.malform, fmt.Sprintf("leveljump(late)@root%d", pi))
+		}
+		s.doc = joinParts(s.parts)
+	}
 	if arm == "malformed" {
 		n := 1 + c.Draw(nMalformMax)
 		for i := 0; i < n; i++ {
@@ -261,7 +293,7 @@ func pickArm(c *Ctx, names []string, weights ...int) string {
 }
 
 func caseC10(c *Ctx) {
-	arm := pickArm(c, []string{"core", "extended", "malformed"}, 6, 2, 2)
+	arm := pickArm(c, []string{"core", "extended", "malformed", "stress"}, 6, 2, 2, 1)
 	s := genMassiveScenario(c, arm, 2)
 	s.describe(c)
 	c.st.Count("arm:" + arm)
@@ -288,6 +320,16 @@ func caseC10(c *Ctx) {
 		c.Skip("simple-mode panic (C12's business)")
 	}
 
+	if arm == "core" && c.Chance(1, 5) {
+		// an unrelated massive call on a document in another notation first: a call's result
+		// must not depend on what the process did before (per-call state only)
+		pf := genForest(c, forestOpts{maxRoots: 2, maxExtra: 3, alpha: alphaPlain, distinctRoots: true, maxDepth: 3, maxFan: 2})
+		psp := Spelling{Unit: []string{"    ", "\t", "   "}[c.Draw(3)], Bullets: "-", FinalNL: true, SharpRoots: c.Draw(4) == 0}
+		pdoc, _ := spell(c, pf, psp)
+		c.Scenario["earlier_call"] = string(pdoc)
+		c.st.Count("with-earlier-call")
+		c.Sim("prime", Op{Kind: "output", Massive: true}, &Env{Doc: pdoc, Reader: noReaderFault, Writer: noWriterFault, Cb: noCbFault})
+	}
 	d2 := s.prepareTarget(c, 2)
 	env := mk(d2)
 	env.Reader = readerPlanFor(c)
@@ -620,6 +662,13 @@ func genBytes(c *Ctx) (string, []byte) {
 			case 11:
 				lines[li] = ""
 			}
+			if c.Draw(5) == 0 && len(lines) > 0 {
+				// path-like and degenerate names (mkdir / verify / dry-run meet them)
+				hostile := []string{"./x.txt", "./././a.go", "a/../b.txt", "..", ".", "x/", "/abs", "a//b", "../up.md", "Makefile/.", strings.Repeat("d/", 40) + "e.go", "..."}
+				lj := c.Draw(len(lines))
+				ind := lines[lj][:len(lines[lj])-len(strings.TrimLeft(lines[lj], " \t"))]
+				lines[lj] = ind + "- " + hostile[c.Draw(len(hostile))]
+			}
 		}
 		return "mutated", []byte(strings.Join(lines, "\n"))
 	case 3:
@@ -745,23 +794,28 @@ func diskDetail(out *Outcome) string {
 	return sb.String()
 }
 
-// differingFirstIndents reports whether the first indented line of the root parts is not
-// indented with the same string everywhere.
-func differingFirstIndents(parts [][]byte) bool {
+// differingFirstIndents reports whether the first indented line is not indented alike in
+// every root block, blocks being cut the way the massive splitter cuts them (a new block at
+// every line whose first byte is one of "#-*+").
+func differingFirstIndents(doc []byte) bool {
 	seen := ""
-	for _, p := range parts {
-		for _, l := range strings.Split(string(p), "\n") {
-			t := strings.TrimLeft(l, " \t")
-			if t == "" || len(t) == len(l) {
-				continue
-			}
-			ind := l[:len(l)-len(t)]
-			if seen == "" {
-				seen = ind
-			} else if seen != ind {
-				return true
-			}
-			break
+	need := false
+	for _, l := range strings.Split(string(doc), "\n") {
+		l = strings.TrimSuffix(l, "\r")
+		if l != "" && strings.ContainsRune("#-*+", rune(l[0])) {
+			need = true
+			continue
+		}
+		t := strings.TrimLeft(l, " \t")
+		if t == "" || !need {
+			continue
+		}
+		need = false
+		ind := l[:len(l)-len(t)]
+		if seen == "" {
+			seen = ind
+		} else if seen != ind {
+			return true
 		}
 	}
 	return false
